@@ -35,14 +35,13 @@ Proof.
 Qed.
 
 Definition leaf_attr_b (sp : attr_spec) : bool :=
-  leaf_coll_b sp || (scalar_ty (a_ty sp) && is_none (a_prepare sp)).
+  leaf_coll_b sp || (scalar_ty (a_ty sp) && oqfn_b (a_prepare sp)).
 
 Lemma leaf_attr_b_sound sp : leaf_attr_b sp = true -> leaf_attr sp.
 Proof.
   unfold leaf_attr_b. intro H. apply orb_true_iff in H. destruct H as [H|H].
   - left. now apply leaf_coll_b_sound.
-  - right. apply andb_true_iff in H. destruct H as [H1 H2]. split; auto.
-    destruct (a_prepare sp); auto; discriminate.
+  - right. apply andb_true_iff in H. destruct H as [H1 H2]. split; auto. now apply oqfn_b_sound.
 Qed.
 
 Definition no_reserved_b (ct : ctable) : bool :=
